@@ -37,9 +37,11 @@ where
 				buf[5] = RD_HEAD[5];
 				buf[6] = RD_HEAD[6];
 				buf[7] = RD_HEAD[7];
+			} else if buf.len() == 2 {
+				// the value-entry buffer is uninitialised (= arbitrary) memory: its content *is* the arbitrary record and
+				// is left untouched; the size word is only observed
+				RD_SEEN = [buf[0], buf[1]];
 			}
-			// other buffers (the value-entry buffer) are uninitialised (= arbitrary) memory: their content *is* the
-			// arbitrary record and is left untouched
 		}
 		Ok(())
 	}
